@@ -26,6 +26,7 @@ REPL = [
   "`optional=1` on a `//@ fn` or `//@ region` makes the absence of a function or statement that a repair\n  introduced a non-event (the callers' contracts then decide). Insert directives: `//@before? …` is skipped when its\n  anchor is absent (ghost bookkeeping attached to a statement a tree need not have; the obligation that reads the\n  ghost decides what the absence means); `//@before#2/3 <<<a>>>` names the second of exactly three occurrences of a\n  short anchor, so that a proof step is not tied to the order of the neighbouring statements."),
  ("inputs that fail on the ORIGINAL tree (F01…F29), referenced from known-findings.txt", "inputs that fail on the ORIGINAL tree (F01…F37), referenced from known-findings.txt"),
  ("`/repo` carries only `fix:` commits (F01-F29).", "`/repo` carries only `fix:` commits (F01-F37)."),
+ ("* **E2** attributes/doc comments of the item are dropped;", "* **E0** comments inside the extracted bodies are dropped (string-aware lexer), so that no anchor depends on a\n  comment and adding or editing comments never loses one.\n* **E2** attributes/doc comments of the item are dropped;"),
 ]
 for x, y in REPL:
     if y in mid:
